@@ -52,13 +52,22 @@ PARTIAL = ('proved (Properties/C02.v, every commutative ring with conjugation, a
            'preserved by add_mps, add_mpo, multiply_mpo, apply_operator (and their sparsity assertions can never fire on operands '
            'satisfying it), established by MPO.identity, the MPS/MPO constructors, MPO.from_opgraph, MPS.from_vector (given chained '
            'shapes), kept by merge + split under C12\'s contract (valid input proved), hence by every history of ring operations with '
-           'no hypothesis and by every history relative to the stated oracle contracts (history_inv_partial); Orth / OrthMpo(left) '
-           'contracts derived from the C01 model, the split contract from the C12 model; boundary charges: sums copy, products take '
-           'outer sums, merge+split keeps, orthonormalize keeps both for a non-zero state.  NOT proved, validated per run: sparsity and '
-           'total charge for compress, TDVP, DMRG, MPO.orthonormalize(right); from_vector\'s shapes; the Hamiltonian constructors up to '
-           'from_opgraph (C05-C07)')
+           'no hypothesis and by every history relative to the stated oracle contracts (history_inv_partial).  Oracle contracts that are '
+           'THEOREMS about the executable models: Orth (both modes), OrthMpo (both modes, C01), Compress (both modes, C13: result '
+           'satisfies the invariant, boundary bonds 1), split (C12), and -- round 2 -- single-site Tdvp / Dmrg: the sweep models keep '
+           'every site tensor block sparse under the current qD and every environment block under (psi.qD, H.qD, psi.qD) after each '
+           'local solver call + QR (the prologue assertion on BR cannot fire), relative to per-call contracts that are theorems for the '
+           'Krylov solvers whenever the call returns (zero patterns pass through Lanczos / Arnoldi / eigh_krylov / expm_krylov with NO '
+           'contract on norm, eigh_tridiagonal, exp; apply_local_hamiltonian / apply_local_bond_contraction / both environment steps map '
+           'charge-conserving arguments to charge-conserving results), for bond_ops.qr by C11 and for the preliminary orthonormalize by '
+           'C01.  Boundary charges: sums copy, products take outer sums, merge+split keeps, orthonormalize AND compress (both modes, '
+           'non-zero amplitude, L*tol < 1 or scale != 0) keep both.  NOT proved, validated per run: two-site TDVP / DMRG (sweep invariant '
+           'with merge+split not written), total charge through TDVP / DMRG, that solver calls return and the operator is charge '
+           'neutral with non-empty bonds (hypotheses of the single-site theorems); from_vector\'s shapes; the Hamiltonian constructors up '
+           'to from_opgraph (C05-C07)')
 ASSUMPTIONS = ['float64 arithmetic on integers below 2^50 is exact (ring histories stop before entries exceed it)',
-               'oracle contracts as listed in Properties/C02.v (C12 for split_matrix_svd, LAPACK QR contract for orthonormalize)']
+               'oracle contracts as listed in Properties/C02.v (C12 for split_matrix_svd, LAPACK QR / SVD / argsort / abs contracts for orthonormalize and '
+               'compress, C11\'s conclusion for the QR calls of the sweeps, "the Krylov call returns" for the local solvers)']
 IMPL_PARALLEL = True
 SHARD = 12
 
